@@ -608,3 +608,69 @@ Proof.
   split; [split; left; cbn; unfold MAX_COL, MAX_ROW; lia|].
   unfold no_edge, MAX_COL, MAX_ROW. cbn. lia.
 Qed.
+
+(* ------------------------------------------------------ size, enumeration *)
+(* size agrees with the clipped cells: they are the width x height block that starts at
+   (max 1 col, max 1 row) *)
+Lemma size_axis M lo hi x : 1 <= M -> ax_ok M lo hi ->
+  ax_in M lo hi x <-> Z.max 1 lo <= x < Z.max 1 lo + ax_size M lo hi.
+Proof.
+  intros HM H. unfold ax_in.
+  destruct (ax_ok_size _ _ _ H) as [(A & B & ->)|(A & B & ->)]; lia.
+Qed.
+Lemma usize_cells s r c row : uwf r ->
+  uinside r c row <-> (Z.max 1 (x1 r) <= c < Z.max 1 (x1 r) + width (unorm s r)
+                       /\ Z.max 1 (y1 r) <= row < Z.max 1 (y1 r) + height (unorm s r)).
+Proof.
+  intros H. destruct (unorm_fields s r H) as (_ & _ & _ & -> & ->). destruct H as (Hx & Hy).
+  unfold uinside.
+  rewrite (size_axis MAX_COL _ _ c ltac:(pose proof max_col_2; lia) Hx).
+  rewrite (size_axis MAX_ROW _ _ row ltac:(pose proof max_row_2; lia) Hy). tauto.
+Qed.
+(* an unbounded range is not enumerated: resolve_range fails its assertion *)
+Lemma unot_enumerable s r : uwf r -> unb_rect r = true -> resolve_range (unorm s r) = Raise AssertionError.
+Proof.
+  intros H E. destruct (unorm_fields s r H) as (_ & _ & _ & Hw & Hh). revert Hw Hh.
+  unfold unorm. rewrite E. intros Hw Hh. cbn [resolve_range]. rewrite Hw, Hh.
+  unfold unb_rect in E. apply orb_true_iff in E. unfold ax_size.
+  destruct E as [E|E]; rewrite E, Z.eqb_refl, ?orb_true_r; reflexivity.
+Qed.
+
+(* ----------------------------------------------------- operands on two sheets *)
+(* #VALUE! when two named sheets differ; otherwise the result above, on the named sheet *)
+Lemma uvalue_sheets sa sb a b : uwf a -> uwf b ->
+  op_inter (VA (unorm sa a)) (VA (unorm sb b))
+    = (if conflict sa sb then Ok (VE VALUE_ERROR) else Ok (umeet_val (pick sa sb) a b))
+  /\ op_union (VA (unorm sa a)) (VA (unorm sb b))
+    = (if conflict sa sb then Ok (VE VALUE_ERROR) else Ok (VA (unorm (pick sa sb) (ujoin a b)))).
+Proof.
+  intros Ha Hb.
+  destruct (unorm_fields sa a Ha) as (As & Ac & Ar & Aw & Ah).
+  destruct (unorm_fields sb b Hb) as (Bs & Bc & Br & Bw & Bh).
+  split.
+  - unfold op_inter, binop, union_intersection, ui_core.
+    rewrite As, Bs, Ac, Bc, Ar, Br, Aw, Bw, Ah, Bh. fold (conflict sa sb). fold (pick sa sb).
+    destruct (conflict sa sb); [reflexivity|].
+    unfold umeet_val, empty_rect.
+    change (Z.max (x1 a) (x1 b)) with (x1 (umeet a b)). change (Z.max (y1 a) (y1 b)) with (y1 (umeet a b)).
+    change (Z.min (x1 a + ax_size MAX_COL (x1 a) (x2 a)) (x1 b + ax_size MAX_COL (x1 b) (x2 b)) - 1)
+      with (x2 (umeet a b)).
+    change (Z.min (y1 a + ax_size MAX_ROW (y1 a) (y2 a)) (y1 b + ax_size MAX_ROW (y1 b) (y2 b)) - 1)
+      with (y2 (umeet a b)).
+    destruct ((x2 (umeet a b) <? x1 (umeet a b)) || (y2 (umeet a b) <? y1 (umeet a b))) eqn:E; [reflexivity|].
+    destruct (umeet_wf a b Ha Hb E) as (_ & P1 & P2 & P3).
+    apply unorm_build; assumption.
+  - unfold op_union, binop, union_intersection, ui_core.
+    rewrite As, Bs, Ac, Bc, Ar, Br, Aw, Bw, Ah, Bh. fold (conflict sa sb). fold (pick sa sb).
+    destruct (conflict sa sb); [reflexivity|].
+    change (Z.min (x1 a) (x1 b)) with (x1 (ujoin a b)). change (Z.min (y1 a) (y1 b)) with (y1 (ujoin a b)).
+    change (Z.max (x1 a + ax_size MAX_COL (x1 a) (x2 a)) (x1 b + ax_size MAX_COL (x1 b) (x2 b)) - 1)
+      with (x2 (ujoin a b)).
+    change (Z.max (y1 a + ax_size MAX_ROW (y1 a) (y2 a)) (y1 b + ax_size MAX_ROW (y1 b) (y2 b)) - 1)
+      with (y2 (ujoin a b)).
+    destruct (ujoin_wf a b Ha Hb) as (_ & P1 & P2 & P3 & E). unfold empty_rect in E. rewrite E.
+    apply unorm_build; assumption.
+Qed.
+Example ex_sheets : conflict [83] [] = false /\ pick [] [83] = [83] /\ conflict [83] [84] = true
+  /\ op_union (VA (unorm [] (colrange 1 3))) (VA (unorm [83] (rowrange 2 5))) = Ok (VA (ARange [83] 0 0 16383 1048575)).
+Proof. vm_compute. repeat split; reflexivity. Qed.
